@@ -12,7 +12,7 @@ Require Import Grits.Base Grits.ModeDefs Grits.Modes Grits.STypes Grits.Forms Gr
                Grits.Tc Grits.TcTop Grits.spec.SynOk
                Grits.Runtime Grits.spec.RtTyping Grits.spec.Topo Grits.proofs.RtSubst Grits.proofs.RtEffect
                Grits.proofs.StepErrors Grits.proofs.RtSafety Grits.proofs.RtInit Grits.proofs.RtProgress
-               Grits.proofs.RtTheorems Grits.proofs.RtStaticCheck Grits.proofs.RtTcSyn Grits.proofs.RtTcBisim
+               Grits.proofs.RtTheorems Grits.proofs.RtSafetyNP Grits.proofs.RtStaticCheck Grits.proofs.RtTcSyn Grits.proofs.RtTcBisim
                Grits.proofs.ParseSynOk Grits.proofs.ParseRaw.
 
 (* ------------------------------------------------------------------ one statically typed program *)
@@ -190,6 +190,47 @@ Theorem progress_sync_run_parsed_partial txt p p' :
     ((forall k, (exists self pr, procs c !! self = Some pr /\ k ∈ cids_of (pr_provs pr)) ->
                 exists o, obj_in c o /\ k ∈ refs o) -> procs c = ∅).
 Proof. intros Hp Ha Hf. exact (progress_sync_run_tc_partial p p' Ha Hf (parse_syn_ok _ _ Hp) (parse_raw_ok _ _ Hp)). Qed.
+
+(* ------------------------------------------------------------------ the non-polarized mode (the CLI's --sync): proofs/RtSafetyNP.v *)
+Definition topo_runs_np (p' : program) : Prop :=
+  forall c, reachable (p_types p') (p_funs p') NP (init_config p') c -> Topo c.
+
+Theorem safety_np_tc_partial p p' :
+  typecheck p = Accept p' -> in_fragment p' -> prog_syn_ok p = true -> raw_ok p = true ->
+  topo_runs_np p' ->
+  forall fuel pick c who e,
+    exec_run fuel pick NP (p_types p') (p_funs p') (init_config p') <> RError c who e.
+Proof.
+  intros Ha Hf PS RS Ht fuel pick c who e.
+  pose proof (tc_annotations_typed_rt p p' Ha PS RS Hf) as Hst.
+  apply (exec_run_safe_np (p_types p') (p_funs p') (teq_rt (p_types p')) (teq_rt_laws _) (proj1 Hst) fuel pick
+           (init_delta p') (init_config p') (initial_typed _ p' (teq_rt_laws _) Hst)).
+  intros c' Hr. apply topo_closed_unused_np. apply Ht. exact Hr.
+Qed.
+
+Theorem safety_np_parsed_partial txt p p' :
+  parse_string txt = POk p -> typecheck p = Accept p' -> in_fragment p' -> topo_runs_np p' ->
+  forall fuel pick c who e,
+    exec_run fuel pick NP (p_types p') (p_funs p') (init_config p') <> RError c who e.
+Proof. intros Hp Ha Hf. exact (safety_np_tc_partial p p' Ha Hf (parse_syn_ok _ _ Hp) (parse_raw_ok _ _ Hp)). Qed.
+
+(* the statement aimed at (`safety_statement` of proofs/RtTheorems.v: the three modes), for parsed
+   programs, with Topo on the reachable configurations as the only premise *)
+Theorem safety_all_modes_parsed_partial txt p p' md :
+  parse_string txt = POk p -> typecheck p = Accept p' -> in_fragment p' ->
+  (forall c, reachable (p_types p') (p_funs p') md (init_config p') c -> Topo c) ->
+  forall fuel pick c who e,
+    exec_run fuel pick md (p_types p') (p_funs p') (init_config p') <> RError c who e.
+Proof.
+  intros Hp Ha Hf Ht fuel pick c who e.
+  pose proof (tc_annotations_typed_parsed txt p p' Hp Ha Hf) as Hst.
+  destruct (is_np md) eqn:Hnp.
+  - destruct md; try discriminate Hnp.
+    exact (safety_np_parsed_partial txt p p' Hp Ha Hf Ht fuel pick c who e).
+  - apply (exec_run_safe (p_types p') (p_funs p') (teq_rt (p_types p')) (teq_rt_laws _) (proj1 Hst) md fuel pick Hnp
+             (init_delta p') (init_config p') (initial_typed _ p' (teq_rt_laws _) Hst)).
+    intros c' Hr self pr k st. eapply topo_closed_unused; [exact Hnp|exact (Ht c' Hr)].
+Qed.
 
 (* ------------------------------------------------------------------ the two computable premises, as the check module evaluates them *)
 Inductive syn_verdict : Type :=
